@@ -465,6 +465,9 @@ func init() {
 			{Scenario: "auth.window", Params: vx.P("transport", "cdn"), Weight: 2},
 			{Scenario: "auth.matrix", Params: vx.P("transport", "direct"), Weight: 9},
 			{Scenario: "auth.matrix", Params: vx.P("transport", "cdn"), Weight: 9},
+			// "a UID the server currently authorises": admission of every connection along histories of
+			// credit / expiry / cap changes while the user is already active (shared with C15)
+			{Scenario: "panel.history", Params: vx.P("depth", "6"), Weight: 5},
 		}
 		if tier == "thorough" {
 			jobs = append(jobs, vx.Job{Scenario: "auth.bitflips", Params: vx.P("transport", "direct", "browser", "firefox", "pairs", "1"), Weight: 9})
